@@ -26,13 +26,19 @@ def _timedelta_arms(ctx) -> None:
     for q, meth in (("DateTime._add_timedelta_", "self.add"), ("DateTime._subtract_timedelta", "self.subtract")):
         fn = m.func(q)
         dp = core.params(fn)[0]
-        ps = cfg.paths(fn)
-        plain = [p for p in ps if all(not pol for t, pol in p.assumes() if t.startswith("isinstance("))]
-        for p in plain:
-            ex = p.exit()
-            val = nun(ex[2].value) if ex[1] == "return" else "<no return>"
-            ctx.ob("TDARM.plain", f"{q}/plain-timedelta", val == f"{meth}(seconds={dp}.total_seconds())",
-                   f"plain timedelta arm returns `{val}`; must be {meth}(seconds={dp}.total_seconds())", m.loc(ex[2] or fn))
+        from . import C04
+        try:
+            arm = [a for a in C04.ladder(m, q) if a[0] == "plain"]
+        except core.Unsupported as e:
+            ctx.unverified("TDARM.plain", f"{q}/plain-timedelta", str(e), m.loc(fn))
+            continue
+        if not arm:
+            ctx.ob("TDARM.plain", f"{q}/plain-timedelta", False, "no outcome for an operand that is a plain timedelta", m.loc(fn))
+            continue
+        _, callee, args = arm[0]
+        shown = f"{callee}({args if isinstance(args, str) else ', '.join(f'{k}={v}' for k, v in sorted(args.items()))})"
+        ctx.ob("TDARM.plain", f"{q}/plain-timedelta", callee == meth and args == {"seconds": f"{dp}.total_seconds()"},
+               f"for a plain timedelta the helper returns `{shown}`; must be {meth}(seconds={dp}.total_seconds())", m.loc(fn))
     # operators
     addf = m.func("DateTime.__add__")
     op = core.params(addf)[0]
